@@ -15,7 +15,21 @@ from harness import pipe_common as PC
 
 KNOWN = {"pairwise_ranks.tsv", "memory.tsv", "value_repetitions.json", "combination_estimation_counts.json", "timings.json", "arguments.json", "3mr_ranks.tsv",
          "numeric_feature_statistics.tsv", "feature_singles.tsv", "feature_singles_transformers_only_imp.tsv", "feature_singles_aggregated.tsv", "rare_values.tsv",
-         "feature_sparsity_summary.tsv"}
+         "feature_sparsity_summary.tsv", "heatmap.pdf", "dendrogram_complete.pdf", "SilhouetteProfile.pdf", "TopClustering.tsv",
+         "barplot_top_3.pdf", "barplot_top_10.pdf", "barplot_top_25.pdf", "barplot_top_50.pdf", "barplot_top_100.pdf"}
+
+
+def artefacts(folder):
+    """Known artefacts present in the folder, plus one name distPlot_<c> per plot family of the instance-ranking task."""
+    import re
+    out = set()
+    for f in (os.listdir(folder) if os.path.isdir(folder) else []):
+        if f in KNOWN:
+            out.add(f)
+        m = re.match(r'^distPlot.*_(.)\.pdf$', f)
+        if m:
+            out.add('distPlot_' + m.group(1))
+    return sorted(out)
 
 
 def make_ds(folder, rng, nrows, numeric):
@@ -37,7 +51,7 @@ def main():
     wd = E.workdir('pipeline')
     bad = 0
     try:
-        cfg0 = E.write_cfg(os.path.join(wd, 'mc.cfg'), constants={'MaxTasks': 3}, invariants=['RanksImplyArtefacts', 'SummaryImpliesRanks', 'CheckpointCleanedAfterRanking', 'CrashOnlyWhenStated'])
+        cfg0 = E.write_cfg(os.path.join(wd, 'mc.cfg'), constants={'MaxTasks': 3, 'FirstCharSets': '{{"0", "1", "a"}}'}, invariants=['RanksImplyArtefacts', 'SummaryImpliesRanks', 'PlotsImplyRanks', 'CheckpointCleanedAfterRanking', 'AllIsTheThreeTasks', 'CrashOnlyWhenStated'])
         res = E.run_tlc('Pipeline', cfg0, timeout=600)
         E.require_ok(res, 'Pipeline')
         if not res.ok:
@@ -51,20 +65,26 @@ def main():
             ({'kind': 'Constant', 'numeric': False, 'batches': 'loop', 'order': 1}, 1100, ['identify_rare_values', 'feature_summary_transformers']),
             ({'kind': 'Constant', 'numeric': False, 'batches': 'loop', 'order': 1}, 1100, ['ranking']),
             ({'kind': '3mr', 'numeric': False, 'batches': 'tail-only', 'order': 2}, 1050, ['ranking', 'ranking_summary']),
+            ({'kind': 'scoring', 'numeric': False, 'batches': 'loop', 'order': 1}, 1100, ['all', 'instance_ranking']),
+            ({'kind': 'scoring', 'numeric': True, 'batches': 'tail-only', 'order': 1}, 1030, ['visualization', 'ranking', 'visualization']),
+            ({'kind': 'scoring', 'numeric': False, 'batches': 'none', 'order': 1}, 300, ['all']),
+            ({'kind': 'Constant', 'numeric': False, 'batches': 'loop', 'order': 1}, 1100, ['all']),
         ]
         if tier == 'quick':
-            scenarios = scenarios[:4]
-        tcfg = E.write_cfg(os.path.join(wd, 't.cfg'), spec='TSpec', constants={'MaxTasks': 5}, postcondition='Accepted')
+            scenarios = scenarios[:4] + scenarios[6:8]
+        tcfg = E.write_cfg(os.path.join(wd, 't.cfg'), spec='TSpec', constants={'MaxTasks': 5, 'FirstCharSets': '{{}}'}, postcondition='Accepted')
         for k, (c, nrows, tasks) in enumerate(scenarios):
             sub = os.path.join(wd, f's{k}')
             make_ds(os.path.join(sub, 'ds'), rng, nrows, c['numeric'])
             heur = {'scoring': 'MI-numba-randomized', '3mr': 'MI-numba-3mr', 'Constant': 'Constant'}[c['kind']]
             mb = {'loop': 1000, 'loop+tail': 1100, 'none': 1000, 'tail-only': 2000}[c['batches']]
-            events = [dict(e='config', **c)]
+            with open(os.path.join(sub, 'ds', 'data.csv')) as f_:
+                chars = sorted({ln[0] for ln in f_ if ln})
+            events = [dict(e='config', chars=chars, **c)]
             for t in tasks:
                 rc, err = PC.run_cli(dict(task=t, data_path='ds', data_source='ob-csv' if c['numeric'] else 'csv-raw', minibatch_size=mb, subsampling=1, heuristic=heur,
                                           num_threads=2, output_folder='out', interaction_order=c['order'], target_ranking_only='False' if c['kind'] == '3mr' else 'True'), sub)
-                present = sorted(f for f in (os.listdir(os.path.join(sub, 'out')) if os.path.isdir(os.path.join(sub, 'out')) else []) if f in KNOWN)
+                present = artefacts(os.path.join(sub, 'out'))
                 events.append({'e': 'task', 'task': t, 'out': present, 'ckpt': os.path.exists(os.path.join(sub, 'ranking_checkpoint_tmp.tsv')), 'crashed': rc != 0})
             tf = os.path.join(wd, f't{k}.ndjson')
             with open(tf, 'w') as f:
@@ -79,6 +99,17 @@ def main():
             E.require_ok(r, 'TracePipeline')
             ok = r.ok
             print(f'scenario {k} {c} tasks={tasks}: {"accepted" if ok else "REJECTED at event " + str(r.depth)}')
+            if ok and 'all' in tasks and c['batches'] != 'none' and c['kind'] != 'Constant':
+                # negative control: the same run without its heat map is not a behaviour of the task `all`
+                ev2 = [dict(e) for e in events]
+                for e in ev2:
+                    if e.get('task') == 'all':
+                        e['out'] = [x for x in e['out'] if x != 'heatmap.pdf']
+                with open(tf, 'w') as f:
+                    for e in ev2:
+                        f.write(json.dumps(e) + '\n')
+                if E.run_tlc('TracePipeline', tcfg, workers=1, env={'TRACE_FILE': tf}, timeout=300).ok:
+                    raise E.MachineryError('negative control: a run of `all` without heatmap.pdf accepted')
             if not ok:
                 bad += 1
                 print('   events:', json.dumps(events)[:900])
